@@ -28,7 +28,8 @@ RULE = ("job = seed -> history of <= 9 operations over one client and two "
         "completes.  distinct = digest(history); non-trivial = at least one "
         "resumption attempt reached the server"
         ' Servers are long-lived (cache ring pre-aged by a drawn number of writes), may hold an external TLS 1.3 PSK next to the ticket keys (client offering both), and the operator may change the server cipher policy between connections.'
-        ' Connections may be held open concurrently and released later in any order (enumerated shared-session skeleton: two connections on one session ending in every order and way); invalidation is sticky in the model; both sides may meanwhile support TLS 1.3 (version upgrade); handshakes may be abandoned mid-flight (invariant: only sessions of completed handshakes sit in a cache as resumable entries).')
+        ' Connections may be held open concurrently and released later in any order (enumerated shared-session skeleton: two connections on one session ending in every order and way); invalidation is sticky in the model; both sides may meanwhile support TLS 1.3 (version upgrade); handshakes may be abandoned mid-flight (invariant: only sessions of completed handshakes sit in a cache as resumable entries).'
+        ' Both ends of a resumed connection must hold the same master secret and exporter output; a ticket may be offered across a HelloRetryRequest (client without key shares).')
 LEVEL_TEXT = ("Seeded exploration of connection histories; simulated time "
               "covers hours to days per history at millisecond cost, which "
               "is what makes expiry, rotation and skew reachable.  The "
@@ -47,7 +48,7 @@ PROBES = ["resumed_id", "resumed_ticket10", "resumed_ticket13",
           "crash", "changed_hello", "client_auth_resumed", "api_refused",
           "external_psk", "external_psk_over_ticket", "policy_changed",
           "policy_excludes_session", "held_open", "version_upgrade",
-          "abandoned_handshake"]
+          "abandoned_handshake", "offer_across_hrr"]
 COMPONENTS_REAL = ["tlslite client/server resumption paths, SessionCache, "
                    "ticket encryption/decryption, Session/Ticket objects"]
 COMPONENTS_STUB = ["socket", "os.urandom", "time.time (per-node SimClock)"]
@@ -184,6 +185,9 @@ def run(job, streams=None):
             sc["cset"]["cipherNames"] = mods["ciphers"]
         if mods.get("psk"):
             sc["cset"]["pskConfigs"] = [list(scen.PSK_HEX) + [mods["psk"]]]
+        if mods.get("hrr"):
+            sc["cset"]["keyShares"] = []
+            probes["offer_across_hrr"] = 1
         if mods.get("upgrade"):
             sc["cset"]["maxVersion"] = [3, 4]
             sc["sset"]["maxVersion"] = [3, 4]
@@ -232,8 +236,8 @@ def run(job, streams=None):
                 resumed = 14 not in obs["server_msgs"]
         info["resumed_wire"] = resumed
         if info["ok"]:
-            info["view_c"] = views.view(pair.c.conn, exporter=False)
-            info["view_s"] = views.view(pair.s.conn, exporter=False)
+            info["view_c"] = views.view(pair.c.conn)
+            info["view_s"] = views.view(pair.s.conn)
             info["issue_time"] = S.clock.t
             info["key"] = S.keys[0] if S.tickets else None
         return info
@@ -374,6 +378,11 @@ def run(job, streams=None):
                 elif m == 5:
                     mods["ciphers"] = ["aes256gcm", "chacha20-poly1305",
                                        "aes256"]
+                elif m in (6, 7) and tuple(ver) == (3, 4):
+                    # no key share in the first ClientHello: the ticket is
+                    # offered across a HelloRetryRequest (binders are
+                    # recomputed over the restarted transcript)
+                    mods["hrr"] = True
                 if ch.draw(5, "h.keepsrv") != 1:
                     sname = offer["server"]
             if mods.get("ciphers") and srv[sname].ciphers and not (
@@ -747,6 +756,14 @@ def judge_attempt(info, offer, S, mods, sname, v, probes, srv):
                                    offer["client_chain"]))
             if offer["client_chain"]:
                 probes["client_auth_resumed"] = 1
+            for f in ("master", "exporter"):
+                if vc.get(f) != vs.get(f):
+                    # both ends of a resumed connection derive the same
+                    # secrets and exported keying material
+                    v("resumed_secrets_disagree", "%s|%s|%s" % (
+                        f, mech, "tls13" if ver == (3, 4) else "tls<=1.2"),
+                      "after resumption the two ends hold different %s: "
+                      "client %r, server %r" % (f, vc.get(f), vs.get(f)))
             if vc["resumed"] != vs["resumed"]:
                 v("resumed_flag_disagreement", "%s|c=%s,s=%s" % (
                     mech, vc["resumed"], vs["resumed"]),
